@@ -78,11 +78,33 @@ def file_result(o):
         return ("?", [("?", f"report not parseable: {type(e).__name__}", None, None)], [])
 
 
+def parse_report(rep):
+    """[(basename, (verdict, [(level, code, line, col)…], texts))…] of a printed report, in whichever format."""
+    text = rep["text"]
+    try:
+        if rep["format"].startswith("JSON"):
+            doc = json.loads(text)
+            out = []
+            for jf in doc["files"]:
+                d = [(e["level"], e["name"], e["highlights"][0]["lineno"] if e["highlights"] else None,
+                      e["highlights"][0]["column"] if e["highlights"] else None) for e in jf["errors"]]
+                out.append((str(jf["path"]).rsplit("/", 1)[-1], (jf["status"], d, [e["text"] for e in jf["errors"]])))
+            return out
+        from .c08 import parse_human
+        return [(nm, (vd, [(lv, c, ln, co) for lv, c, ln, co, t in ds], [t for lv, c, ln, co, t in ds])) for nm, vd, ds in parse_human(text)]
+    except Exception:  # noqa
+        return None
+
+
+def short_argv(argv):
+    return [x if len(x) < 60 else x[:57] + "..." for x in argv]
+
+
 class C16(Engine):
     prop = "C16"
     name = "cli-sim"
     level = "exploration"
-    expected_kinds = {"options", "channel_inline", "R_CheckDefine", "R_word", "debug", "format_json", "only_filename", "no_colors"}
+    expected_kinds = {"options", "channel_inline", "R_CheckDefine", "R_word", "debug", "format_json", "only_filename", "no_colors", "multi_file"}
     rule_text = ("For every sampled workload file (all classes, both file types) ALL 216 option vectors are executed through the real "
                  "main(); the reference vector is `--no-colors -f humanized`, file on disk. Non-trivial = both the reference and the "
                  "variant reached a verdict (so (a) is comparable); distinct = distinct (option vector, file class) pairs among those. "
@@ -149,6 +171,33 @@ class C16(Engine):
                 yield idx, sc
                 idx += 1
 
+    def multi_scenarios(self):
+        P = self.pools
+        q = self.tier == "quick"
+        n = 400 if q else 8000
+        ref = {"nocol": 1, "fmt": "humanized", "o": 0, "dbg": 0, "R": None, "Rkind": None, "inline": 0}
+        for i in range(n):
+            rng = core.derive_rng("c16.multi", self.seed, i)
+            k = rng.randrange(2, 4)
+            fids = []
+            names = set()
+            for _ in range(20):
+                fid = self.chosen[rng.randrange(len(self.chosen))]
+                if P.files[fid]["name"] not in names:
+                    names.add(P.files[fid]["name"])
+                    fids.append(fid)
+                if len(fids) == k:
+                    break
+            word = WORDS[rng.randrange(len(WORDS))]
+            vs_ = [v for v in vectors(word) if not v["inline"]]
+            v = vs_[rng.randrange(len(vs_))]
+            if rng.random() < 0.5:
+                v = dict(v)
+                v["R"], v["Rkind"] = "CheckDefine", "CheckDefine"
+            argv = argv_of(v, "X", "")[:-1] + [P.files[f]["name"] for f in fids]
+            yield 5_000_000 + i, {"kind": "multi", "vec": v, "ref": ref, "tree": {P.files[f]["name"]: "@" + f for f in fids},
+                                  "ops": [{"op": "cli", "argv": argv}]}
+
     def the_file(self, sc):
         for k, v in (sc.get("tree") or {}).items():
             if isinstance(v, str) and v.startswith("@"):
@@ -156,42 +205,93 @@ class C16(Engine):
         return None, None
 
     def refs_needed(self, sc):
+        out = []
+        for name, f in self.all_files(sc):
+            rsc = {"files": {"r": {"name": name, "content": f["content"]}}, "tree": {name: "@r"},
+                   "ops": [{"op": "cli", "argv": argv_of(sc["ref"], name, f["content"])}]}
+            out.append((self.ref_key(name, f), rsc))
+        return out
+
+    def ref_key(self, name, f):
+        return ("c16ref", name, fsha(f))
+
+    def all_files(self, sc):
+        out = []
+        for k, v in sorted((sc.get("tree") or {}).items()):
+            if isinstance(v, str) and v.startswith("@"):
+                out.append((k, file_of(sc, v[1:])))
+        return out
+
+    def judge(self, sc, res, refs):
+        if not res["ops"]:
+            return []
+        o_var = res["ops"][0]
+        v = sc["vec"]
+        if o_var.get("end") == "invalid-scenario":
+            return []
+        if sc.get("kind") == "multi":
+            return self.judge_multi(sc, o_var, refs)
         name, f = self.the_file(sc)
         if f is None:
             return []
-        key = ("c16ref", name, fsha(f))
-        rsc = {"files": {"r": {"name": name, "content": f["content"]}}, "tree": {name: "@r"},
-               "ops": [{"op": "cli", "argv": argv_of(sc["ref"], name, f["content"])}]}
-        return [(key, rsc)]
-
-    def judge(self, sc, res, refs):
-        vs = []
-        name, f = self.the_file(sc)
-        if f is None or not res["ops"]:
-            return []
-        rr = refs[("c16ref", name, fsha(f))]
+        rr = refs[self.ref_key(name, f)]
         if rr.get("killed"):
             return []
-        o_ref, o_var = rr["ops"][0], res["ops"][0]
-        v = sc["vec"]
-        if o_var.get("end") == "invalid-scenario" or o_ref.get("end") == "invalid-scenario":
-            return []
+        o_ref = rr["ops"][0]
         a = file_result(o_ref)
         b = file_result(o_var)
-
-        def V(clause, site, **d):
-            d["variant_argv"] = [x if len(x) < 60 else x[:57] + "..." for x in sc["ops"][0]["argv"]]
-            d["file"] = f["name"]
-            return Violation(self.prop, clause, site, d)
-        diff_opts = [k for k in ("nocol", "fmt", "o", "dbg", "Rkind", "inline") if v[k] != sc["ref"][k]]
+        argv = sc["ops"][0]["argv"]
+        vs = []
         # an internal error / hang under a variant but not under the reference is a change of findings too
         if a is not None and b is None and o_var.get("end") in ("internal", "hang"):
             if not (v["dbg"] == 0 and o_var.get("end") == o_ref.get("end")):
-                vs.append(V("C16.a-same-findings", f"variant {self.vec_kind(v)} ends {o_var.get('end')} {o_var.get('exc') or ''} where the reference reaches a verdict",
-                            site=core.site_key(o_var.get("site"))))
+                vs.append(Violation(self.prop, "C16.a-same-findings",
+                                    f"variant {self.vec_kind(v)} ends {o_var.get('end')} {o_var.get('exc') or ''} where the reference reaches a verdict",
+                                    {"site": core.site_key(o_var.get("site")), "file": f["name"], "variant_argv": short_argv(argv)}))
             return vs
         if a is None or b is None:
             return vs
+        return self.compare(sc, v, f, a, b, o_ref, argv, "", o_var)
+
+    def judge_multi(self, sc, o, refs):
+        """Several files in one invocation under one option vector: each file's printed result is held against that
+        file's reference result (same oracle as for a single file)."""
+        vs = []
+        v = sc["vec"]
+        if o.get("end") != "exit" or not o.get("reports"):
+            return vs
+        rep = o["reports"][0]
+        results = parse_report(rep)
+        if results is None:
+            return [Violation(self.prop, "C16.a-same-findings", "multi-file report not parseable", {"argv": short_argv(sc["ops"][0]["argv"])})]
+        byname = {}
+        for nm, r in results:
+            byname.setdefault(nm, []).append(r)
+        for name, f in self.all_files(sc):
+            rr = refs[self.ref_key(name, f)]
+            if rr.get("killed"):
+                continue
+            o_ref = rr["ops"][0]
+            a = file_result(o_ref)
+            if a is None:
+                continue            # the reference reaches no verdict (fatal): nothing to compare for this file
+            got = byname.get(name, [])
+            if len(got) != 1:
+                vs.append(Violation(self.prop, "C16.a-same-findings", f"multi-file run under {self.vec_kind(v)}: a file that reaches a verdict alone is reported {len(got)} times",
+                                    {"file": name, "argv": short_argv(sc["ops"][0]["argv"])}))
+                continue
+            vs += self.compare(sc, v, f, a, got[0], o_ref, sc["ops"][0]["argv"], "multi-file run: ", o)
+        return vs
+
+    def compare(self, sc, v, f, a, b, o_ref, argv, prefix, o_var=None):
+        o_var = o_var or {}
+        vs = []
+
+        def V(clause, site, **d):
+            d["variant_argv"] = short_argv(argv)
+            d["file"] = f["name"]
+            return Violation(self.prop, clause, prefix + site, d)
+        diff_opts = [k for k in ("nocol", "fmt", "o", "dbg", "Rkind", "inline") if v[k] != sc["ref"][k]]
         if v["Rkind"] == "CheckDefine":
             # (b) diagnostics subset of the reference; removed ones only from the #define-value check, on #define lines
             ra, rb = list(a[1]), list(b[1])
@@ -221,7 +321,11 @@ class C16(Engine):
                     break
             if a[0] != b[0] and not rem:
                 vs.append(V("C16.b-CheckDefine-removes-only", "verdict changed although no diagnostic was removed", ref=a[0], var=b[0]))
-            rest = [k for k in diff_opts if k != "Rkind"]
+            # and it does remove them: under -R CheckDefine the #define-value check emits nothing (measured from which
+            # check class called Errors.add in the variant run, so another rule using the same code cannot confuse it)
+            still = [code for code, rule in (o_var.get("who") or []) if rule == "CheckPreprocessorDefine"]
+            if still:
+                vs.append(V("C16.b-CheckDefine-removes-only", "-R CheckDefine left #define-value diagnostics in place", emitted=still[:3]))
         else:
             if a[0] != b[0] or a[1] != b[1]:
                 kinds = "+".join(diff_opts)
@@ -234,6 +338,11 @@ class C16(Engine):
             elif a[2] != b[2]:
                 vs.append(V("C16.a-same-findings", f"diagnostic texts differ under {'+'.join(diff_opts)}"))
         return vs
+
+    def on_define_line(self, lines, line):
+        text = lines[line - 1] if line and 0 < line <= len(lines) else ""
+        t = text.lstrip()
+        return (t.startswith("#") and t[1:].lstrip().startswith("define")) or self.in_define_continuation(lines, line)
 
     @staticmethod
     def in_define_continuation(lines, line):
@@ -265,6 +374,12 @@ class C16(Engine):
 
     def observe(self, idx, sc, r):
         v = sc["vec"]
+        if sc.get("kind") == "multi":
+            self.fire("multi_file")
+            if v["Rkind"] == "CheckDefine":
+                self.fire("R_CheckDefine")
+            self.distinct.add(("multi", v["nocol"], v["fmt"], v["o"], v["dbg"], v["Rkind"], len(sc["tree"])))
+            return
         self.fire("options")
         if v["inline"]:
             self.fire("channel_inline")
@@ -301,6 +416,7 @@ class C16(Engine):
         self.comparable = 0
         self.prepare()
         self.run_bulk(self.scenarios(), chunk=8)
+        self.run_bulk(self.multi_scenarios(), chunk=8)
         self.recheck_killed()
         self.fidelity()
         self.stats["comparable_pairs"] = self.comparable
@@ -327,6 +443,10 @@ class C16(Engine):
             raise RuntimeError(f"fidelity sample disagrees with the real subprocess: {bad[:1]}")
 
     def shrinkers(self, sc, target):
+        if sc.get("kind") == "multi":
+            from ..framework import generic_shrinkers
+            yield from generic_shrinkers(sc)
+            return
         # options are shrunk by moving the variant vector toward the reference, one coordinate at a time
         v = sc["vec"]
         name = None
@@ -347,6 +467,8 @@ class C16(Engine):
 
     def refresh(self, sc):
         """Recompute both argv from the (possibly shrunk) file content: inline content must follow the file."""
+        if sc.get("kind") == "multi":
+            return sc
         name = None
         for k, t in (sc.get("tree") or {}).items():
             if isinstance(t, str) and t.startswith("@"):
